@@ -964,6 +964,22 @@ class TLSRecordLayer(object):
         self._shutdown(False)
         raise TLSLocalAlert(alert, errorStr)
 
+    def _send_post_handshake_msg(self, msg, randomizeFirstBlock=True):
+        """Send a message on behalf of a public call made after the handshake.
+
+        Like read(), write() and close(): if the transport fails, the
+        connection is closed (and the session invalidated) before the
+        exception is passed on.
+        """
+        try:
+            for result in self._sendMsg(msg, randomizeFirstBlock):
+                yield result
+        except GeneratorExit:
+            raise
+        except Exception:
+            self._shutdown(False)
+            raise
+
     def _sendMsgs(self, msgs):
         # send messages together in a single TCP write
         self.sock.buffer_writes = True
@@ -1502,8 +1518,8 @@ class TLSRecordLayer(object):
         if len(heartbeat_request.write()) > self.recordSize:
             raise ValueError("Heartbeat message larger than the record size")
 
-        for result in self._sendMsg(heartbeat_request,
-                                    randomizeFirstBlock=False):
+        for result in self._send_post_handshake_msg(heartbeat_request,
+                                                    randomizeFirstBlock=False):
             yield result
 
     def send_heartbeat_request(self, payload, padding_length):
@@ -1560,7 +1576,7 @@ class TLSRecordLayer(object):
                                                " feature")
 
         keyupdate_request = KeyUpdate().create(message_type)
-        for result in self._sendMsg(keyupdate_request):
+        for result in self._send_post_handshake_msg(keyupdate_request):
             yield result
         self.session.cl_app_secret, self.session.sr_app_secret = \
             self._recordLayer.calcTLS1_3KeyUpdate_reciever(
